@@ -31,6 +31,13 @@ CHECKS["C08"] = dict(design="4 C08", technique="TLA+ spec (DictIter: declarative
     note="Trusted: TLC; trie DFA construction in the harness; vellum's regexp/levenshtein automata only as alternative realisations of an acceptance set whose denotation is evaluated by running them.",
     text="TLC enumerates every term set (<=3 of 5 quick / <=4 of 6 thorough catalogue terms incl. empty, prefix pairs, NUL and non-ASCII) x every acceptance subset x every well-formed key range over 10 bounds, checks EnumExact (operational counts with the reused scratch postings list equal the true counts for every mixture of single-hit and general entries; the original, unrepaired design is refuted by the same invariant on every run) and emits the expected entries. Each query is executed on real dictionaries of built, re-opened, merged and twice-merged segments with trie DFAs, decoy-accepting DFAs, nil and vellum regexp/Levenshtein automata of equal denotation; Contains and Cardinality are compared per dictionary.")
 
+CHECKS["C07"]["text"] += " A second stage validates with TLC (TraceLife) every postings probe of the lifecycle traces a second time through one postings list and one iterator that are reused from probe to probe across terms, fields and segments of random rich batches (prealloc-reuse histories)."
+CHECKS["C07"]["technique"] = "TLA+ spec (PostIter) exhaustively explored by TLC, every maximal call sequence replayed on real iterators; TLC trace validation of prealloc-reuse probes (TraceLife)"
+CHECKS["C12"] = dict(design="4 C12/C13", technique="TLA+ spec (ThesTermsOf/SynonymsOf in ZapData) + TLC walks over synonym catalogue documents replayed + TLC trace validation",
+    text="Life.tla over catalogue documents with two thesauri (shared synonyms, the same term defined by two documents) and seeded batches mixing ordinary and synonym documents; every build and re-open is observed completely: thesaurus term enumeration, Contains, SynonymsList for every left-hand term x exclusion bitmaps (nil, empty, random, full), each probe fresh and through reused list/iterator objects, unknown thesauri/terms, ordinary fields probed as thesauri and synonym fields probed as dictionaries. TLC recomputes each answer from the logged batch.")
+CHECKS["C13"] = dict(design="4 C12/C13", technique="TLA+ spec (merge law over synonym triples) + TLC walks replayed + TLC trace validation",
+    text="As C12 for merged segments: Life.tla enumerates merges of segments with and without thesauri under every drop set; random merge chains (syn profile); TLC compares every thesaurus of the re-opened merged segment with SynonymsOf of the survivors' content under the new numbering.")
+
 NA = {}
 for i in range(1, 21):
     pid = "C%02d" % i
